@@ -285,7 +285,7 @@ def _c15_neutralised_passes(fa, v, case, recs, one_case, sh, seed):
     node, _env = RS.build(js2)
     r = random.Random(seed)
     n = 0
-    for _ in range(6):
+    for _ in range(80):
         d = DatumGen(r, size_budget=30, big=0.0, mappings=0.0).gen(node)
         if RC.float_out_of_range(node, d):
             continue
@@ -410,7 +410,7 @@ def _c20_recursion(fa, v, case, recs, one_schema, sh, seed):
         return False
     # signatures of unbounded generation: the generator blows the stack, or it
     # returns a value so large that a later step trips the call watchdog
-    if not ((v[0] == "generate-raised" and ("RecursionError" in v[1] or "HangError" in v[1])) or "HangError" in v[1]):
+    if not ("RecursionError" in v[1] or "HangError" in v[1]):
         return False
     js2 = derecurse(js)
     r = random.Random(seed)
